@@ -3,12 +3,12 @@ package main
 // Symbolic state: SSA environment, heap (per-field arrays, element memory), allocation counter.
 
 import (
-	"strconv"
 	"fmt"
+	"go/types"
 	"os"
 	"runtime"
-	"go/types"
 	"sort"
+	"strconv"
 	"strings"
 	"sync"
 
@@ -18,12 +18,12 @@ import (
 // Loc is a storage location: an object field (possibly nested, possibly the whole object) or an element
 // of slice/array/cell memory.
 type Loc struct {
-	Mem  bool
-	Ref  string // object reference, or memory base
-	Idx  string // memory index (Mem)
-	Root string // type key of the root struct (field) or of the memory element type (Mem)
-	Path string // field path inside the root / element
-	T    types.Type
+	Mem   bool
+	Ref   string // object reference, or memory base
+	Idx   string // memory index (Mem)
+	Root  string // type key of the root struct (field) or of the memory element type (Mem)
+	Path  string // field path inside the root / element
+	T     types.Type
 	RootT types.Type
 }
 
@@ -35,26 +35,26 @@ type deferRec struct {
 }
 
 type State struct {
-	fx       *FnCtx
-	env      map[ssa.Value]*Val
-	locs     map[ssa.Value]*Loc
-	heap     map[string]string
-	epoch    int
-	kep      map[string]int // per-key epoch overriding epoch (after a havoc of that key)
-	allocTop string
-	top0     string
-	defers   []*deferRec
-	path     []int
-	fuel     int
-	variants map[*ssa.BasicBlock]string
-	iters    map[ssa.Value]*iterInfo
-	kpre     []prefixEpoch
-	lastIter *iterInfo
-	curPoint point
+	fx        *FnCtx
+	env       map[ssa.Value]*Val
+	locs      map[ssa.Value]*Loc
+	heap      map[string]string
+	epoch     int
+	kep       map[string]int // per-key epoch overriding epoch (after a havoc of that key)
+	allocTop  string
+	top0      string
+	defers    []*deferRec
+	path      []int
+	fuel      int
+	variants  map[*ssa.BasicBlock]string
+	iters     map[ssa.Value]*iterInfo
+	kpre      []prefixEpoch
+	lastIter  *iterInfo
+	curPoint  point
 	lockEpoch *int
-	conds    []string // branch conditions taken so far (for state merging)
-	wfGuard  string
-	wfSink   *[]string // when set, type-invariant facts are collected (inside quantifier bodies) instead of asserted
+	conds     []string // branch conditions taken so far (for state merging)
+	wfGuard   string
+	wfSink    *[]string // when set, type-invariant facts are collected (inside quantifier bodies) instead of asserted
 }
 
 type prefixEpoch struct {
